@@ -54,6 +54,16 @@ class RegionAttribute(abc.ABC):
         raise NotImplementedError  # pragma: no cover
 
 
+class RegionText(RegionAttribute):
+    """
+    Descriptor class to check that value is a text string.
+    """
+
+    def _validate(self, value):
+        if not isinstance(value, str):
+            raise ValueError(f'{self.name!r} must be a string')
+
+
 class ScalarPixCoord(RegionAttribute):
     """
     Descriptor class to check that value is a scalar
